@@ -14,7 +14,10 @@
    build: the vertex count and the triangle bit vector [Edges] (column order (0,1),(0,2),(1,2),
    (0,3),...); Sparse6Decode returns the vertex count and the edge set of the SparseGraph as
    the list of pairs (v,x), x < v, sorted lexicographically (the neighbour lists themselves are
-   sortints values, the subject of C17). *)
+   sortints values, the subject of C17).
+
+   MulticodeEncode/Decode and PruferEncode/Decode are modelled in Codec/MulticodeModel.v and
+   Codec/PruferModel.v (self-contained). *)
 From Coq Require Import List ZArith Bool Arith.
 Import ListNotations.
 Open Scope Z_scope.
@@ -316,158 +319,3 @@ Definition sparse6_decode_fuel (fuel : nat) (s0 : list Z) : res (Z * list (Z * Z
 
 Definition sparse6_decode (s0 : list Z) : res (Z * list (Z * Z)) :=
   sparse6_decode_fuel (6 * length s0 + 8) s0.
-
-(* ------------------------------------------------------------------ Multicode *)
-(* the DenseGraph literal returned by MulticodeDecode *)
-Record dgraph := { dn : Z; dm : Z; ddeg : list Z; dedges : list bool }.
-
-Definition multicode_encode (g : graph) : res (list Z) :=
-  let n := Z.of_nat (gn g) in
-  if 255 <? n then Panic
-  else if n =? 0 then Ok [0]
-  else
-    let body := flat_map (fun i => map (fun j => byte_of (Z.of_nat j + 1))
-                                       (filter (gadj g i) (seq (S i) (gn g - S i))) ++ [0])
-                         (seq 0 (gn g - 1)) in
-    (* s := make([]byte, g.M()+n); the writes s[index] = ..; index++ start at index 1 *)
-    let size := gm g + n in
-    if size <? 1 + len body then Panic
-    else Ok (byte_of n :: body ++ repeat 0 (Z.to_nat (size - 1 - len body))).
-
-Fixpoint mc_loop (s : list Z) (cv m : Z) (deg : list Z) (edges : list bool)
-  : res (Z * Z * list Z * list bool) :=
-  match s with
-  | [] => Ok (cv, m, deg, edges)
-  | c :: r =>
-    if c =? 0 then mc_loop r (cv + 1) m deg edges
-    else
-      do edges' <- upd_ edges (bsub c 1 * bsub c 2 / 2 + cv) true;
-      do d1 <- at_ deg (bsub c 1);
-      do deg1 <- upd_ deg (bsub c 1) (d1 + 1);
-      do d2 <- at_ deg1 cv;
-      do deg2 <- upd_ deg1 cv (d2 + 1);
-      mc_loop r cv (m + 1) deg2 edges'
-  end.
-
-Definition multicode_decode (s : list Z) : res dgraph :=
-  do n <- at_ s 0;
-  let deg := repeat 0 (Z.to_nat n) in
-  let edges := repeat false (Z.to_nat (n * (n - 1) / 2)) in
-  do r <- mc_loop (tl s) 0 0 deg edges;
-  let '(cv, m, deg', edges') := r in
-  if (0 <? n) && negb (cv =? n - 1) then Panic
-  else Ok {| dn := n; dm := m; ddeg := deg'; dedges := edges' |}.
-
-(* MulticodeDecodeMultiple; [cur] is s[startOfGraph:i], most recent byte first *)
-Fixpoint mcm_loop (s : list Z) (left : Z) (cur : list Z) (out : list dgraph) : res (list dgraph) :=
-  match s with
-  | [] => Ok (rev out)
-  | c :: r =>
-    if left =? 0 then
-      if c <=? 1 then do g <- multicode_decode [c]; mcm_loop r 0 [] (g :: out)
-      else mcm_loop r (c - 1) [c] out
-    else if c =? 0 then
-      if left - 1 =? 0 then do g <- multicode_decode (rev (c :: cur)); mcm_loop r 0 [] (g :: out)
-      else mcm_loop r (left - 1) (c :: cur) out
-    else mcm_loop r left (c :: cur) out
-  end.
-
-Definition multicode_decode_multiple (s : list Z) : res (list dgraph) := mcm_loop s 0 [] [].
-
-(* ------------------------------------------------------------------ Pruefer *)
-(* first index j and element v of vs with degrees[v] == 1 *)
-Fixpoint first_leaf (deg : list Z) (vs : list nat) (j : nat) : res (option (nat * nat)) :=
-  match vs with
-  | [] => Ok None
-  | v :: r =>
-    do d <- at_ deg (Z.of_nat v);
-    if d =? 1 then Ok (Some (j, v)) else first_leaf deg r (S j)
-  end.
-
-(* copy(vs[j:], vs[j+1:]) : the slice keeps its length, the last element stays *)
-Definition remove_at (vs : list nat) (j : nat) : list nat :=
-  match skipn (S j) vs with
-  | [] => vs
-  | tail => firstn j vs ++ tail ++ [last vs O]
-  end.
-
-Definition pe_step (g : graph) (st : list nat * list Z * list Z) : res (list nat * list Z * list Z) :=
-  let '(vs, deg, out) := st in
-  do fl <- first_leaf deg vs 0;
-  match fl with
-  | None => Ok st
-  | Some (j, v) =>
-    do r <-
-      match find (fun u => gadj g u v) vs with
-      | Some u =>
-        do d <- at_ deg (Z.of_nat u);
-        do deg' <- upd_ deg (Z.of_nat u) (d - 1);
-        Ok (deg', Z.of_nat u :: out)
-      | None => Ok (deg, out)
-      end;
-    let (deg', out') := r in
-    Ok (remove_at vs j, deg', out')
-  end.
-
-Fixpoint pe_iter (g : graph) (cnt : nat) (st : list nat * list Z * list Z) : res (list nat * list Z * list Z) :=
-  match cnt with
-  | O => Ok st
-  | S c => do st' <- pe_step g st; pe_iter g c st'
-  end.
-
-Definition prufer_encode (g : graph) : res (list Z) :=
-  (* make([]int, 0, n-2) panics for n < 2 *)
-  if (gn g <? 2)%nat then Panic else
-  do st <- pe_iter g (gn g - 2) (seq 0 (gn g), degrees g, []);
-  let '(_, _, out) := st in
-  Ok (rev out).
-
-Fixpoint incr_all (deg : list Z) (p : list Z) : res (list Z) :=
-  match p with
-  | [] => Ok deg
-  | v :: r => do d <- at_ deg v; do deg' <- upd_ deg v (d + 1); incr_all deg' r
-  end.
-
-(* first j in js with degrees[j] == 1 *)
-Fixpoint first_one (deg : list Z) (js : list Z) : res (option Z) :=
-  match js with
-  | [] => Ok None
-  | j :: r => do d <- at_ deg j; if d =? 1 then Ok (Some j) else first_one deg r
-  end.
-
-Definition zseq (a : Z) (cnt : nat) : list Z := map (fun i => a + Z.of_nat i) (seq 0 cnt).
-
-Fixpoint pd_loop (n : nat) (p : list Z) (deg : list Z) (edges : list bool) : res (list Z * list bool) :=
-  match p with
-  | [] => Ok (deg, edges)
-  | v :: r =>
-    do fo <- first_one deg (zseq 0 n);
-    match fo with
-    | None => pd_loop n r deg edges
-    | Some j =>
-      do edges' <- (if v <? j then upd_ edges (j * (j - 1) / 2 + v) true
-                    else upd_ edges (v * (v - 1) / 2 + j) true);
-      do dj <- at_ deg j;
-      do deg1 <- upd_ deg j (dj - 1);
-      do dv <- at_ deg1 v;
-      do deg2 <- upd_ deg1 v (dv - 1);
-      pd_loop n r deg2 edges'
-    end
-  end.
-
-Definition prufer_decode (p : list Z) : res (Z * list bool) :=
-  let nn := (length p + 2)%nat in
-  let n := Z.of_nat nn in
-  do deg <- incr_all (repeat 1 nn) p;
-  do r <- pd_loop nn p deg (repeat false (Z.to_nat (n * (n - 1) / 2)));
-  let (deg', edges) := r in
-  do fi <- first_one deg' (zseq 0 nn);
-  match fi with
-  | None => Ok (n, edges)
-  | Some i =>
-    do fj <- first_one deg' (zseq (i + 1) (nn - Z.to_nat (i + 1)));
-    match fj with
-    | None => Ok (n, edges)
-    | Some j => do edges' <- upd_ edges (j * (j - 1) / 2 + i) true; Ok (n, edges')
-    end
-  end.
